@@ -18,7 +18,7 @@ PKG = "lib/util/lifted/promql2influxql"
 TEST = "TestVerifC18"
 LEVEL = "exploration"
 WORKERS = {"quick": 12, "thorough": 12}
-DEADLINE = {"quick": 150, "thorough": 2100}
+DEADLINE = {"quick": 170, "thorough": 2100}
 RULE = ("every expression text of the grammar (selectors with =, !=, =~, !~ x offset; 13 (quick) / 16 (thorough) range "
         "functions x ranges {1m,5m}; 5 aggregations x {none, by, without}; binary operators {+,-,*,/,>,==,> bool,== bool} "
         "vector/scalar and vector/vector with default/on/ignoring matching; depth <= 2) is evaluated on every sample set "
@@ -35,7 +35,7 @@ ASSUMPTIONS = [
     "reads follow a visibility barrier (raw selector returns every written series with its last value)",
 ]
 
-CLAIMED = False
+CLAIMED = True
 MANIFEST = dict(
     level=LEVEL,
     engine="enumx+blackbox",
